@@ -567,6 +567,8 @@ class RefMap:
         if op == "cfg":
             return
         tid = int(w[1])
+        if op not in ("digest", "inv", "stats"):
+            self.lftl_pending.clear()       # any other request (also one naming a table as its source) may change the state
         if op == "apol":
             self.pol = int(w[2])
             return
@@ -591,7 +593,11 @@ class RefMap:
                 return
             if op == "swap":
                 if src != tid:
-                    self.maps[tid], self.maps[src] = self.maps.get(src, {}), self.maps.get(tid, {})
+                    a_, b_ = self.maps.pop(src, None), self.maps.pop(tid, None)
+                    if a_ is not None:
+                        self.maps[tid] = a_
+                    if b_ is not None:
+                        self.maps[src] = b_
                     self.mlf[tid], self.mlf[src] = self.mlf.get(src), self.mlf.get(tid)
                     self.mhp[tid], self.mhp[src] = self.mhp.get(src), self.mhp.get(tid)
                     if self.pol & 4:
@@ -609,12 +615,19 @@ class RefMap:
             self.exists.add(tid)
             if op in ("copy", "copya"):
                 if src != tid:
-                    self.maps[tid] = dict(self.maps.get(src, {}))
+                    if src in self.maps:
+                        self.maps[tid] = dict(self.maps[src])
+                    else:
+                        self.maps.pop(tid, None)       # copy of an object whose contents the oracle does not know
                     self.mlf[tid], self.mhp[tid] = self.mlf.get(src), self.mhp.get(src)
             elif src == tid:
                 self.maps.pop(tid, None)           # self-move: a moved-from object (valid to destroy or assign to)
             else:
-                self.maps[tid] = self.maps.pop(src, {})
+                moved = self.maps.pop(src, None)
+                if moved is not None:
+                    self.maps[tid] = moved
+                else:
+                    self.maps.pop(tid, None)
                 self.mlf[tid], self.mhp[tid] = self.mlf.get(src), self.mhp.get(src)
             self.locked[tid] = False
             return
@@ -622,6 +635,10 @@ class RefMap:
             if got != "ok":
                 if not got.startswith("err") and not got.startswith("bad-table"):
                     self.fail("C11", i, line, got, "construction / assignment from a list failed")
+                if op == "assignil" and got.startswith("err"):
+                    # operator=(initializer_list) is clear() + insert each: a refused expansion in the middle leaves a prefix of
+                    # the list; the oracle does not know which, so the contents of this object are unknown from here on
+                    self.maps.pop(tid, None)
                 return
             pairs = [(int(w[j]), int(w[j + 1])) for j in range(3, len(w) - 1, 2)]
             if op != "newrange":
@@ -720,8 +737,6 @@ class RefMap:
         ok = g[0] == "ok"
         if op not in ("digest", "inv", "stats", "rehash", "reserve"):
             self.size_req.pop(tid, None)
-        if op not in ("digest", "inv", "stats"):
-            self.lftl_pending.pop(tid, None)
         val = g[1] if len(g) > 1 else None
         calls = [x[5:] for x in g if x.startswith("call=")]
 
